@@ -289,7 +289,7 @@ func init() {
 		}
 		// full versions: cores with 2^64-1 boundaries x pre-releases x builds, through every entry point
 		cores := [][3]string{{"0", "0", "0"}, {"1", "0", "0"}, {"1", "0", "1"}, {"1", "1", "0"}, {"0", "9", "9"}, {"2", "0", "0"}, {"10", "0", "0"}, {"9", "0", "0"},
-			{u64max, "0", "0"}, {"18446744073709551614", u64max, "0"}, {u64max, u64max, u64max}, {u64max, u64max, "18446744073709551614"}, {"1", "10", "2"}, {"1", "9", "10"}, {"1", "2", "10"}, {"1", "2", "9"}}
+			{u64max, "0", "0"}, {"18446744073709551614", u64max, "0"}, {"9223372036854775808", "0", "1"}, {"1", "9223372036854775808", "0"}, {"1", "9223372036854775809", "9223372036854775808"}, {"9223372036854775807", "1", "9223372036854775808"}, {u64max, u64max, u64max}, {u64max, u64max, "18446744073709551614"}, {"1", "10", "2"}, {"1", "9", "10"}, {"1", "2", "10"}, {"1", "2", "9"}}
 		pres := []string{"", "alpha", "alpha.1", "alpha.beta", "beta", "beta.2", "beta.11", "rc.1", "1", "2", "10", "a.b", "a-b", "a01", "a1", "rc10", "rc9"}
 		builds := []string{"", "b", "001", "exp.sha.5114f85"}
 		n := 0
